@@ -85,6 +85,16 @@ def case(g, tier, ci):
                 ops.append({"op": "sq.setSeq", "id": "s", "pos": p, "field": fld, "v": r.randint(0, hi)})
         if r.random() < 0.3:
             ops.append({"op": "sq.setSeq", "id": "s", "pos": p, "field": "jump_input", "v": r.randint(0, 5)})
+    if ci % 5 == 3:
+        # an addElement that is refused (channels of unequal length) at an occupied position: its settings stay what they are
+        bad = g.fresh("e")
+        ops += [{"op": "el.new", "id": bad},
+                {"op": "el.addArray", "id": bad, "ch": 1, "wfm": [q(0)] * 5, "SR": enc(SR), "kw": []},
+                {"op": "el.addArray", "id": bad, "ch": 2, "wfm": [q(0)] * 7, "SR": enc(SR), "kw": []},
+                {"op": "sq.addElement", "id": "s", "pos": r.randint(1, P + 1), "el": bad}]
+    if ci % 7 == 2 and not boundary:
+        # a delay stored for a channel this sequence does not have
+        ops.append({"op": "sq.setDelay", "id": "s", "ch": r.choice([9, "Z"]), "v": enc(40 / SR)})
     ops.append({"op": "sq.awg", "id": "s"})
     n = len(chans)
     k = r.random()
